@@ -3,6 +3,40 @@ import core
 from core import Cfg
 
 HOST_BACKENDS = ['asm', 'c64', 'c32', 'dxor', 'generic']
+MASKED_BACKENDS = ['asm', 'c64', 'c32']   # dxor/generic reuse one of these word implementations
+
+# harness table shared by several properties
+H = {
+    'aead': dict(name='aead', sources=['h_aead.c', 'trng_tape.c']),
+    'perm': dict(name='perm', sources=['h_perm.c']),
+}
+
+
+def diverse_specs(flavour='rel'):
+    """five builds that cover every backend and every share count 1..4 once"""
+    return [(Cfg('asm', (4, 2, 4)), flavour), (Cfg('c64', (3, 3, 3)), flavour), (Cfg('c32', (2, 1, 2)), flavour),
+            (Cfg('dxor', (4, 3, 4)), flavour), (Cfg('generic', (4, 4, 4)), flavour)]
+
+
+def wide_specs(flavour='rel', backends=None):
+    """every backend x the nine (key,data) pairs at max=4, plus max=2 and max=3 clamps"""
+    out = []
+    for be in backends or HOST_BACKENDS:
+        for k in (2, 3, 4):
+            for d in range(1, k + 1):
+                out.append((Cfg(be, (k, d, 4)), flavour))
+        out.append((Cfg(be, (4, 2, 3)), flavour))
+        out.append((Cfg(be, (4, 4, 2)), flavour))
+        out.append((Cfg(be, (3, 3, 3)), flavour))
+    return out
+
+
+def with_args(h, name, args, cases_quick=None, cases_thorough=None):
+    d = dict(h)
+    d['extra_args'] = list(args)
+    d['cases_quick'], d['cases_thorough'] = cases_quick, cases_thorough
+    return d
+
 
 
 def run_matrix(ctx, harnesses, specs, rule, level='exploration', assumptions=(), timeout=1800, shards=None):
